@@ -230,6 +230,22 @@ def strain_factor(rep):
         tgt = loop.target
         keyvar = unparse(tgt.elts[0]) if isinstance(tgt, ast.Tuple) else unparse(tgt)
         base = f"{CORE}::AurelCore.cleanup_cache::scan{li}"
+        # the entry under test may be held under further names: `k = <loop key>` in the body
+        keyvars = {keyvar}
+        grew = True
+        while grew:
+            grew = False
+            for a in ast.walk(loop):
+                if isinstance(a, ast.Assign) and len(a.targets) == 1 \
+                        and isinstance(a.targets[0], ast.Name) and isinstance(a.value, ast.Name) \
+                        and a.value.id in keyvars and a.targets[0].id not in keyvars \
+                        and sum(isinstance(x, ast.Name) and x.id == a.targets[0].id
+                                and isinstance(x.ctx, ast.Store) for x in ast.walk(loop)) == 1:
+                    keyvars.add(a.targets[0].id)
+                    grew = True
+
+        def importance_of_entry(f):
+            return any(importance_get(f, k) for k in keyvars)
         # selection predicates: `if strain > bound:` whose body records the key
         preds = []
         for node in ast.walk(loop):
@@ -250,8 +266,8 @@ def strain_factor(rep):
             # the key recorded is the loop key
             rec_ok = any(isinstance(n, (ast.Assign, ast.AugAssign))
                          and records(n)
-                         and keyvar in [x.id for x in ast.walk(n.value)
-                                        if isinstance(x, ast.Name)]
+                         and keyvars & {x.id for x in ast.walk(n.value)
+                                        if isinstance(x, ast.Name)}
                          for st in pred.body for n in ast.walk(st))
             rep.check(rec_ok, "strain-factor", f"{base}::key",
                       f"the key recorded for removal is not the key `{keyvar}` whose strain "
@@ -267,11 +283,11 @@ def strain_factor(rep):
                 facs = product_factors(v)
                 ok = False
                 for f in facs:
-                    if importance_get(f, keyvar):
+                    if importance_of_entry(f):
                         ok = True
                     elif isinstance(f, ast.Name):
                         fv = assignments_in(loop.body, f.id)
-                        if fv and all(importance_get(x, keyvar) for x in fv):
+                        if fv and all(importance_of_entry(x) for x in fv):
                             ok = True
                 rep.check(ok, "strain-factor", f"{base}::{svar}={norm_src(v)[:60]}",
                           f"strain `{norm_src(v)[:80]}` is not a product with the factor "
